@@ -19,6 +19,8 @@ import (
 type c11Conn struct {
 	id     int
 	closed int
+	// deadlines of the two directions as the last setter calls left them; whether one was ever armed
+	rdArmed, wrArmed, everArmed bool
 }
 
 func (c *c11Conn) Read(p []byte) (int, error)         { return 0, io.EOF }
@@ -26,9 +28,21 @@ func (c *c11Conn) Write(p []byte) (int, error)        { return len(p), nil }
 func (c *c11Conn) Close() error                       { c.closed++; return nil }
 func (c *c11Conn) LocalAddr() net.Addr                { return nil }
 func (c *c11Conn) RemoteAddr() net.Addr               { return nil }
-func (c *c11Conn) SetDeadline(t time.Time) error      { return nil }
-func (c *c11Conn) SetReadDeadline(t time.Time) error  { return nil }
-func (c *c11Conn) SetWriteDeadline(t time.Time) error { return nil }
+func (c *c11Conn) SetDeadline(t time.Time) error {
+	c.rdArmed, c.wrArmed = !t.IsZero(), !t.IsZero()
+	c.everArmed = c.everArmed || !t.IsZero()
+	return nil
+}
+func (c *c11Conn) SetReadDeadline(t time.Time) error {
+	c.rdArmed = !t.IsZero()
+	c.everArmed = c.everArmed || !t.IsZero()
+	return nil
+}
+func (c *c11Conn) SetWriteDeadline(t time.Time) error {
+	c.wrArmed = !t.IsZero()
+	c.everArmed = c.everArmed || !t.IsZero()
+	return nil
+}
 
 // stub for (*http.Response).Write: the "200 Connection established" answer of the CONNECT muxer
 func c11StubRespWrite(r *http.Response, w io.Writer) error { return nil }
@@ -149,6 +163,9 @@ func VerifC11GroupHandoff() {
 			zzverif.Reach("C11.handoff.taken")
 			if kind == 1 {
 				zzverif.Reach("C11.handoff.taken-through-the-vhost-muxer")
+				// the muxer sniffs under a deadline; what it hands to the proxy has none left in either direction
+				zzverif.Assert(u.everArmed, "C17.handoff.routing-information-awaited-under-a-deadline")
+				zzverif.Assert(!u.rdArmed && !u.wrArmed, "C02.handoff.no-deadline-left-armed-on-a-routed-connection")
 			}
 		}
 		if servingStays {
